@@ -460,7 +460,8 @@ MANIFEST = {
             "and Jacobians ~ l^-1 (position), ~ l (momenta), shape parameters invariant; wall profile ~ l, "
             "gradient ~ l^2, action ~ l^3; finite-difference derivatives ~ l^(4-n) with scaled step; "
             "tracePhase absolute tolerance homogeneous; manager length conversions ~ l^-1; template T- ~ l "
-            "(float check). Both runs share one path, so all branch decisions coincide.",
+            "(float check). Both runs share one path, so all branch decisions coincide."
+            " The variation scales handed to setupThermodynamicsHydrodynamics are the ones in force after each of three set-ups of one manager.",
     "note": "Kernel level; end-to-end agreement of two runs and the un-rescaled absolute scipy tolerances "
             "are outside (listed in evidence).",
 }
